@@ -149,21 +149,14 @@ pub fn gen_sinks(rng: &mut Rng, tier: &Tier) -> Vec<Case> {
 
 // ---- pipes ---------------------------------------------------------------------------------------
 
+/// the stages of the C01 pipes are the harness's own (see other.rs): C01 must not raise an alarm because some
+/// library filter used as a stage is broken
 fn pipe_leaf(rng: &mut Rng) -> String {
-    match rng.below(9) {
-        0 => "integrate".to_string(),
-        1 => "differentiate".to_string(),
-        2 => format!("delay;N={}", rng.range(0, 3)),
-        3 => format!("median;N={}", rng.range(1, 4)),
-        4 => format!("max;N={}", rng.range(1, 3)),
-        5 => format!("min;N={}", rng.range(1, 3)),
-        6 => format!("mean;N={}", rng.range(1, 3)),
-        7 => format!("ema;w={}", crate::gen::unit_rat(rng)),
-        _ => {
-            let n = rng.range(1, 3);
-            let c: Vec<String> = (0..n).map(|_| rng.range(-2, 2).to_string()).collect();
-            format!("convolve;c={}", c.join(","))
-        }
+    match rng.below(4) {
+        0 => format!("p_acc;a={}", rng.range(-3, 3)),
+        1 => format!("p_affine;a={};b={}", *rng.pick(&[-2i64, -1, 2, 3]), rng.range(-3, 3)),
+        2 => format!("p_lag;init={}", rng.range(-3, 3)),
+        _ => "p_max".to_string(),
     }
 }
 
